@@ -41,3 +41,11 @@ def check_loss_inputs(x, y_true):
             "\tExpected shape-{}\n"
             "\tGot shape-{}".format((x.shape[0],), y_true.shape)
         )
+
+    if y_true.size and (y_true.min() < 0 or y_true.max() >= x.shape[1]):
+        # (a negative label would silently be read as a class counted from the end)
+        raise ValueError(
+            "`y_true` must hold class-indices in [0, {}), got values in [{}, {}]".format(
+                x.shape[1], y_true.min(), y_true.max()
+            )
+        )
